@@ -2,7 +2,7 @@ SPEC = {
     'id': 'C05',
     'harness': 'hC05',
     'coq_dir': 'C05',
-    'claimed': False,
+    'claimed': True,
     'theorems': [
         'C05_refuted', 'C05_refuted_fork', 'C05_prune_keeps_live_partial', 'C05_prune_keeps_live_partial_inputs',
         'C05_guard_nonvacuous',
